@@ -19,23 +19,24 @@ Lemma len_app {X} (a b : list X) : len (a ++ b) = len a + len b.
 Proof. unfold len. rewrite app_length. lia. Qed.
 
 (* sanitize_queue_size is the clamp into [1, max] *)
-Lemma sanitize_clamp mx r : 1 <= mx -> 0 <= r -> sanitize_queue_size mx r = Z.max 1 (Z.min mx r).
+Lemma sanitize_clamp mx r : 0 <= r -> sanitize_queue_size mx r = Z.max 1 (Z.min mx r).
 Proof.
-  intros Hm Hr. unfold sanitize_queue_size.
+  intros Hr. unfold sanitize_queue_size.
   destruct (Z.eqb_spec r 0); [cbn; lia|].
   destruct (Z.eqb_spec r 1); [cbn; lia|]. cbn [orb].
   destruct (Z.ltb_spec mx r); lia.
 Qed.
 
-Lemma sanitize_bounds mx r : 1 <= mx -> 0 <= r -> 1 <= sanitize_queue_size mx r <= mx.
-Proof. intros Hm Hr. rewrite sanitize_clamp by assumption. lia. Qed.
+Lemma sanitize_bounds mx r : 0 <= r -> 1 <= sanitize_queue_size mx r <= Z.max 1 mx.
+Proof. intros Hr. rewrite sanitize_clamp by assumption. lia. Qed.
 
 Section Generic.
   Context {A : Type}.
   Notation st := (st A).
 
-  (* the queue invariant: the revised size is within [1, max] and the queue never exceeds it *)
-  Definition inv (mx : Z) (s : st) : Prop := 1 <= size s <= mx /\ len (q s) <= size s.
+  (* the queue invariant: the revised size is within [1, max(1, server maximum)] and the queue
+     never exceeds it *)
+  Definition inv (mx : Z) (s : st) : Prop := 1 <= size s <= Z.max 1 mx /\ len (q s) <= size s.
 
   Lemma removelast_firstn_pred (l : list (A * bool)) : removelast l = firstn (pred (length l)) l.
   Proof.
@@ -89,10 +90,10 @@ Section Generic.
     destruct d; [rewrite length_tl | rewrite length_removelast]; lia.
   Qed.
 
-  Lemma modify_spec mx s r d f : 1 <= mx -> 0 <= r -> inv mx s ->
+  Lemma modify_spec mx s r d f : 0 <= r -> inv mx s ->
     modify mx s r d f = Done (spec_modify mx s r d f).
   Proof.
-    intros Hmx Hr [[H1 Hm] Hl]. unfold modify, spec_modify.
+    intros Hr [[H1 Hm] Hl]. unfold modify, spec_modify.
     destruct (f =? 2); [reflexivity|].
     rewrite sanitize_clamp by assumption. set (sz := Z.max 1 (Z.min mx r)).
     assert (Hsz : 1 <= sz) by (unfold sz; lia).
@@ -105,9 +106,9 @@ Section Generic.
     - rewrite lastn_all by lia. reflexivity.
   Qed.
 
-  Lemma spec_modify_inv mx s r d f : 1 <= mx -> inv mx s -> inv mx (fst (spec_modify mx s r d f)).
+  Lemma spec_modify_inv mx s r d f : inv mx s -> inv mx (fst (spec_modify mx s r d f)).
   Proof.
-    intros Hmx Hi. unfold spec_modify. destruct (f =? 2); [exact Hi|].
+    intros Hi. unfold spec_modify. destruct (f =? 2); [exact Hi|].
     unfold inv, len; cbn [fst size q]. rewrite lastn_length. lia.
   Qed.
 
@@ -136,30 +137,30 @@ Section Generic.
     | o :: ops' => match step mx s o with Done s' => steps mx s' ops' | Panic => Panic end
     end.
 
-  Lemma step_inv mx s o : 1 <= mx -> gop_ok o -> inv mx s ->
+  Lemma step_inv mx s o : gop_ok o -> inv mx s ->
     exists s', step mx s o = Done s' /\ inv mx s'.
   Proof.
-    intros Hmx Ho Hi. destruct o as [a|r d f|]; cbn [step].
+    intros Ho Hi. destruct o as [a|r d f|]; cbn [step].
     - eexists; split; [reflexivity|]. apply enqueue_inv. exact Hi.
     - cbn in Ho. rewrite modify_spec by assumption.
-      pose proof (spec_modify_inv mx s r d f Hmx Hi) as H.
+      pose proof (spec_modify_inv mx s r d f Hi) as H.
       destruct (spec_modify mx s r d f) as [s' res]. eexists; split; [reflexivity|exact H].
     - eexists; split; [reflexivity|]. apply drain_inv. exact Hi.
   Qed.
 
   (* for every history of samples, modify requests and drains: no panic, and the invariant holds
      in the state reached *)
-  Theorem steps_inv mx ops : 1 <= mx -> Forall gop_ok ops -> forall s, inv mx s ->
+  Theorem steps_inv mx ops : Forall gop_ok ops -> forall s, inv mx s ->
     exists s', steps mx s ops = Done s' /\ inv mx s'.
   Proof.
-    intros Hmx Hops. induction Hops as [|o ops Ho _ IH]; intros s Hi; cbn [steps].
+    intros Hops. induction Hops as [|o ops Ho _ IH]; intros s Hi; cbn [steps].
     - eexists; split; [reflexivity|exact Hi].
-    - destruct (step_inv mx s o Hmx Ho Hi) as (s1 & E & Hi1). rewrite E. apply IH. exact Hi1.
+    - destruct (step_inv mx s o Ho Hi) as (s1 & E & Hi1). rewrite E. apply IH. exact Hi1.
   Qed.
 
-  Lemma create_inv mx r d : 1 <= mx -> 0 <= r -> inv mx (create (A:=A) mx r d).
+  Lemma create_inv mx r d : 0 <= r -> inv mx (create (A:=A) mx r d).
   Proof.
-    intros Hmx Hr. unfold inv, create, len; cbn. pose proof (sanitize_bounds mx r Hmx Hr). lia.
+    intros Hr. unfold inv, create, len; cbn. pose proof (sanitize_bounds mx r Hr). lia.
   Qed.
 
   (* ---- sample order ------------------------------------------------------------------------ *)
@@ -213,10 +214,10 @@ Section Generic.
   Lemma vals_app l1 l2 : vals (l1 ++ l2) = vals l1 ++ vals l2.
   Proof. unfold vals. apply map_app. Qed.
 
-  Lemma step_order mx s o s' : 1 <= mx -> gop_ok o -> inv mx s -> step mx s o = Done s' ->
+  Lemma step_order mx s o s' : gop_ok o -> inv mx s -> step mx s o = Done s' ->
     subseq (vals (q s')) (vals (q s) ++ sampled [o]).
   Proof.
-    intros Hmx Ho Hi E. destruct o as [a|r d f|]; cbn [step] in E.
+    intros Ho Hi E. destruct o as [a|r d f|]; cbn [step] in E.
     - injection E as <-. rewrite (enqueue_spec mx) by exact Hi. unfold spec_enqueue; cbn [q sampled flat_map].
       rewrite app_nil_r. destruct (disc s).
       + unfold lastn. rewrite vals_skipn, vals_app. apply subseq_skipn.
@@ -234,12 +235,12 @@ Section Generic.
 
   (* sample order is preserved: what the queue holds, oldest to newest, is a subsequence of what
      it held before followed by the samples of the history, in their order *)
-  Theorem steps_order mx ops : 1 <= mx -> Forall gop_ok ops -> forall s s', inv mx s ->
+  Theorem steps_order mx ops : Forall gop_ok ops -> forall s s', inv mx s ->
     steps mx s ops = Done s' -> subseq (vals (q s')) (vals (q s) ++ sampled ops).
   Proof.
-    intros Hmx Hops. induction Hops as [|o ops Ho _ IH]; intros s s' Hi E; cbn [steps] in E.
+    intros Hops. induction Hops as [|o ops Ho _ IH]; intros s s' Hi E; cbn [steps] in E.
     - injection E as <-. cbn. rewrite app_nil_r. apply subseq_refl.
-    - destruct (step_inv mx s o Hmx Ho Hi) as (s1 & E1 & Hi1). rewrite E1 in E.
+    - destruct (step_inv mx s o Ho Hi) as (s1 & E1 & Hi1). rewrite E1 in E.
       rewrite sampled_cons, app_assoc.
       eapply subseq_trans; [apply (IH s1 s' Hi1 E)|].
       apply subseq_app; [|apply subseq_refl]. eapply step_order; eassumption.
@@ -271,13 +272,13 @@ Section Generic.
   Qed.
 
   (* what an accepted or late-refused modify request does: the most recent entries that fit *)
-  Theorem modify_law mx s r d f : 1 <= mx -> 0 <= r -> inv mx s -> f <> 2 ->
+  Theorem modify_law mx s r d f : 0 <= r -> inv mx s -> f <> 2 ->
     exists s' res, modify mx s r d f = Done (s', res) /\
       size s' = Z.max 1 (Z.min mx r) /\ disc s' = d /\
       q s' = lastn (Z.to_nat (size s')) (q s) /\
       len (q s') = Z.min (len (q s)) (size s').
   Proof.
-    intros Hmx Hr Hi Hf. rewrite modify_spec by assumption. unfold spec_modify.
+    intros Hr Hi Hf. rewrite modify_spec by assumption. unfold spec_modify.
     destruct (Z.eqb_spec f 2); [contradiction|].
     do 2 eexists. split; [reflexivity|]. cbn [size disc q]. repeat split.
     unfold len. rewrite lastn_length. lia.
@@ -285,15 +286,15 @@ Section Generic.
 End Generic.
 
 (* ---- the correspondence model against the reference evaluator ----------------------------- *)
-Lemma go_spec mx ops : 1 <= mx -> Forall op_ok ops -> forall s, inv mx s ->
+Lemma go_spec mx ops : Forall op_ok ops -> forall s, inv mx s ->
   go mx ops s = spec_go mx ops s.
 Proof.
-  intros Hmx Hops. induction Hops as [|o ops Ho _ IH]; intros s Hi; [reflexivity|].
+  intros Hops. induction Hops as [|o ops Ho _ IH]; intros s Hi; [reflexivity|].
   destruct o as [v|r d f|]; cbn [go spec_go].
   - rewrite <- (enqueue_spec mx) by exact Hi. cbn zeta. rewrite IH by (apply enqueue_inv; exact Hi).
     reflexivity.
   - cbn in Ho. destruct Ho as [[Hr _] _]. rewrite modify_spec by assumption.
-    pose proof (spec_modify_inv mx s r d f Hmx Hi) as Hi'.
+    pose proof (spec_modify_inv mx s r d f Hi) as Hi'.
     destruct (spec_modify mx s r d f) as [s' res]. cbn [fst] in Hi'. rewrite IH by exact Hi'. reflexivity.
   - unfold drain. destruct (q s) eqn:E.
     + rewrite IH by exact Hi. reflexivity.
@@ -308,7 +309,7 @@ Qed.
 Theorem run_eq_spec c : valid c -> run c = spec c.
 Proof.
   intros Hv. pose proof Hv as (Hm & Hs & Ho). unfold run, spec.
-  rewrite <- (init_spec c Hv). f_equal. apply go_spec; [exact Hm | exact Ho |].
+  rewrite <- (init_spec c Hv). f_equal. apply go_spec; [exact Ho |].
   apply create_inv; lia.
 Qed.
 
@@ -326,7 +327,7 @@ Proof. destruct o; cbn; tauto. Qed.
 Theorem run_no_panic c : valid c ->
   exists s', steps (c_max c) (init c) (map to_gop (c_ops c)) = Done s' /\ inv (c_max c) s'.
 Proof.
-  intros (Hm & Hs & Ho). apply steps_inv; [exact Hm | | apply create_inv; lia].
+  intros (Hm & Hs & Ho). apply steps_inv; [ | apply create_inv; lia].
   apply Forall_forall. intros g Hg. apply in_map_iff in Hg as (o & <- & Hin).
   apply op_ok_gop. rewrite Forall_forall in Ho. auto.
 Qed.
@@ -341,6 +342,18 @@ Proof.
   - vm_compute. tauto.
   - vm_compute. reflexivity.
 Qed.
+
+(* before the maximum-of-0 fix: with a configured maximum of 0 the revised size is 0 and the queue
+   exceeds it at once (and grows by one entry per sample) *)
+Theorem legacy_max0_refuted :
+  let s := Legacy.create (A:=Z) 0 5 true in
+  size s = 0 /\ len (q (enqueue (enqueue (enqueue s 1) 2) 3)) = 3.
+Proof. vm_compute. split; reflexivity. Qed.
+
+Example valid_max0 : valid (mk_case 0 5 true [Enq 1; Enq 2; Modify 3 false 0; Enq 3]).
+Proof. unfold valid, U32MAX; cbn. repeat split; try lia. repeat constructor; cbn; lia. Qed.
+Example run_max0 : run (mk_case 0 5 true [Enq 1; Enq 2]) = [1;1;0;0] ++ [0; 1;1;0;1; 1;0] ++ [0; 1;1;0;1; 2;0].
+Proof. vm_compute. reflexivity. Qed.
 
 Example valid_example : valid (mk_case 10 3 true [Enq 1; Enq 2; Enq 3; Enq 4; Modify 2 false 0; Enq 5; Drain]).
 Proof. unfold valid, U32MAX; cbn. repeat split; try lia. repeat constructor; cbn; lia. Qed.
